@@ -10,7 +10,7 @@ functions are inlined, anything else yields TOP (unknown), which poisons what it
 """
 import copy
 from .poly import Poly, Q
-from .facts import place_parts, op_place, term_succs
+from .facts import place_parts, op_place, op_local, term_succs
 
 
 class Top:
@@ -420,6 +420,12 @@ class Engine:
             for s in b["s"]:
                 if "d" in s:
                     val = self.rvalue(fr, s["r"], st)
+                    if isinstance(val, int) and not isinstance(val, bool) and s["r"].get("k") == "bin" and s["r"].get("op") in ("Shl", "ShlUnchecked"):
+                        # bits shifted out of a machine integer are lost (only the shift AMOUNT is checked in debug builds)
+                        dl, dprojs = place_parts(s["d"])
+                        w = {"u8": 8, "u16": 16, "u32": 32, "u64": 64, "u128": 128, "usize": 64}.get(fn.local_ty(dl) if not dprojs else None)
+                        if w:
+                            val &= (1 << w) - 1
                     self.set(self.locate(fr, s["d"]), val)
                 elif "setdiscr" in s:
                     pass
@@ -530,16 +536,26 @@ class Engine:
         if k == "bin":
             a, b = self.operand(fr, r["a"]), self.operand(fr, r["b"])
             op = r["op"]
+            # machine-integer operands that reached here as constant ring values (through a modelled conversion) are integers
+            if isinstance(a, Q) and isinstance(b, (int, Q)) and not isinstance(b, bool) and a.is_poly() and a.n.is_const() and (isinstance(b, int) or (b.is_poly() and b.n.is_const())):
+                a = a.n.const_value()
+            if isinstance(b, Q) and isinstance(a, int) and not isinstance(a, bool) and b.is_poly() and b.n.is_const():
+                b = b.n.const_value()
             if isinstance(a, int) and isinstance(b, int):
                 try:
                     if op in ("AddWithOverflow", "SubWithOverflow", "MulWithOverflow"):
                         base = {"Add": a + b, "Sub": a - b, "Mul": a * b}[op[:3]]
                         return Obj(adt="tuple", fields={0: base, 1: False})
-                    return {"Add": a + b, "Sub": a - b, "Mul": a * b, "Eq": a == b, "Ne": a != b, "Lt": a < b, "Le": a <= b,
-                            "Gt": a > b, "Ge": a >= b, "BitAnd": a & b, "BitOr": a | b, "BitXor": a ^ b,
-                            "AddUnchecked": a + b, "SubUnchecked": a - b, "Shl": a << b, "Shr": a >> b,
-                            "Rem": (abs(a) % abs(b)) * (1 if a >= 0 else -1) if b else TOP,
-                            "Div": (abs(a) // abs(b)) * (1 if (a >= 0) == (b >= 0) else -1) if b else TOP}.get(op, TOP)
+                    # evaluated per operator (a table of all results would compute `a << b` for every pair of operands)
+                    table = {"Add": lambda: a + b, "Sub": lambda: a - b, "Mul": lambda: a * b, "Eq": lambda: a == b, "Ne": lambda: a != b,
+                             "Lt": lambda: a < b, "Le": lambda: a <= b, "Gt": lambda: a > b, "Ge": lambda: a >= b,
+                             "BitAnd": lambda: a & b, "BitOr": lambda: a | b, "BitXor": lambda: a ^ b,
+                             "AddUnchecked": lambda: a + b, "SubUnchecked": lambda: a - b, "MulUnchecked": lambda: a * b,
+                             "Shl": lambda: a << b if 0 <= b < 4096 else TOP, "Shr": lambda: a >> b if 0 <= b < 4096 else TOP,
+                             "ShlUnchecked": lambda: a << b if 0 <= b < 4096 else TOP, "ShrUnchecked": lambda: a >> b if 0 <= b < 4096 else TOP,
+                             "Rem": lambda: (abs(a) % abs(b)) * (1 if a >= 0 else -1) if b else TOP,
+                             "Div": lambda: (abs(a) // abs(b)) * (1 if (a >= 0) == (b >= 0) else -1) if b else TOP}
+                    return table[op]() if op in table else TOP
                 except Exception:
                     return TOP
             if op in ("BitAnd", "BitOr") and (isinstance(a, (bool, Cond)) and isinstance(b, (bool, Cond))):
@@ -565,8 +581,16 @@ class Engine:
             v = int(v)
         if isinstance(v, int):
             tgt = t["else"]
+            # switch values are the bit patterns at the operand's own width (-1i8 is 255)
+            width = 128
+            try:
+                ol = op_local(t["o"])
+                oty = fr.fn.local_ty(ol) if ol is not None else ((t["o"].get("k") or {}).get("ty") if isinstance(t["o"], dict) else None)
+                width = {"i8": 8, "u8": 8, "i16": 16, "u16": 16, "i32": 32, "u32": 32, "i64": 64, "u64": 64, "isize": 64, "usize": 64, "bool": 8, "char": 32}.get(oty, 128)
+            except Exception:
+                width = 128
             for val, tg in zip(t["vals"], t["tgts"]):
-                if val == (v & ((1 << 128) - 1)):
+                if val == (v & ((1 << width) - 1)) or val == (v & ((1 << 128) - 1)):
                     tgt = tg
             return tgt
         succs = term_succs(t)
@@ -689,6 +713,10 @@ class Engine:
             res = self.models.apply(self, st, fr, t, args)
         if res is NotImplemented and "path" in f and len(st.frames) < self.max_depth:
             callee = self.lookup(f)
+            if (callee is not None and callee.kind == "Closure" and f.get("name") in ("call", "call_mut", "call_once") and len(args) == 2
+                    and isinstance(args[1], Obj) and args[1].adt == "tuple" and callee.d["argc"] == 1 + len(args[1].fields)):
+                # "rust-call" ABI: Fn::call(&f, (a, b)) reaches a closure body whose parameters are (env, a, b)
+                args = [args[0]] + [args[1].fields[i] for i in sorted(args[1].fields)]
             if callee is not None and len(callee.bbs) <= self.inline_limit and callee.d["argc"] == len(args):
                 nf = Frame(callee)
                 for i, a in enumerate(args):
